@@ -1,0 +1,26 @@
+//go:build verif
+
+package sio
+
+import "time"
+
+// VerifBackoffDuration runs the unexported back-off calculator once: a calculator built by
+// newBackoff(min, max, jitter) whose attempt counter is set to `attempts` computes one
+// delay. It returns the delay and the value of the attempt counter afterwards.
+func VerifBackoffDuration(min, max time.Duration, jitter float32, attempts uint32) (d time.Duration, attemptsAfter uint32) {
+	b := newBackoff(min, max, jitter)
+	b.numAttempts = attempts
+	d = b.duration()
+	return d, b.attempts()
+}
+
+// VerifBackoffSequence returns the first n delays of a fresh calculator, then resets it
+// and returns the delay that follows the reset.
+func VerifBackoffSequence(min, max time.Duration, jitter float32, n int) (ds []time.Duration, afterReset time.Duration) {
+	b := newBackoff(min, max, jitter)
+	for i := 0; i < n; i++ {
+		ds = append(ds, b.duration())
+	}
+	b.reset()
+	return ds, b.duration()
+}
